@@ -2,7 +2,7 @@
 import random, math
 
 RULES = {
-    'C14.B.inverse_direct': 'zones 1..60 (longitude inside +-180), both hemispheres, eastings 100 000..900 000 m, latitudes -80..84, lines 1 m..100 km in every direction, second point in the same or an adjacent zone (same hemisphere): grid distance = ellipsoidal distance x lsf, bearings = azimuths + convergence at each end (own zone); the direct computation from the reported bearing and grid distance reproduces the second point in zone 1 within 1 mm',
+    'C14.B.inverse_direct': 'zones 1..60 (longitude inside +-180), both hemispheres, eastings 100 000..900 000 m, latitudes -80..84, lines 1 m..100 km in every direction, second point in the same or an adjacent zone (same hemisphere): grid distance = ellipsoidal distance x lsf, bearings = azimuths + convergence at each end (own zone); lines within the grid convergence of grid north included; the direct computation from the reported bearing (as reported, and reduced to [0, 360)) and grid distance reproduces the second point in zone 1 within 1 mm',
     'C14.B.line_scale_factor': 'same lines: the line scale factor lies between the smallest and largest point scale factor along the line (21 samples) within 3e-7 and agrees with their Simpson mean within 5e-7',
 }
 
@@ -29,7 +29,7 @@ def work(item):
         if not (100000 <= e1 <= 900000 and -180 <= lon1 <= 180):
             continue
         s = 10 ** rng.uniform(0, 5)
-        az = rng.choice([0.0, 90.0, 180.0, 270.0, rng.uniform(0, 360)])
+        az = rng.choice([0.0, 90.0, 180.0, 270.0, rng.uniform(0, 360), rng.uniform(0, 360), rng.uniform(356.5, 360), rng.uniform(0, 3.5)])   # also lines within the grid convergence of grid north
         lat2, lon2, _ = gd.vincdir(lat1, lon1, az, s, e)
         if not (-180 <= lon2 <= 180) or (lat2 > 0) != north or abs(lat2) < 0.05 or not (-80 < lat2 < 84):
             continue
@@ -53,11 +53,14 @@ def work(item):
             if not ok:
                 r1['failures'].append(dict(input=inp, what='inverse: distance/bearings are not ell_dist x lsf / azimuth + convergence', got=[gdist, b12, b21, lsf]))
             if ed > 0.5:
-                zz, ee, nn, bb, ll = gd.vincdir_utm(z1, e1, n1, b12, gdist, hemi, e)
-                tgt = cv.geo2grid(p2[0], p2[1], z1, e)
-                d = math.hypot(ee - tgt[2], nn - tgt[3])
-                if zz != z1 or d > 1e-3 + 2e-4:      # + the 0.1 mm rounding of both grid coordinates
-                    r1['failures'].append(dict(input=inp, what='direct computation does not reproduce the second point in zone 1 within 1 mm', miss_m=d, got=[zz, ee, nn]))
+                # the reported bearing as it is (it may lie outside 0..360 by the convergence) and reduced to [0, 360): the same grid direction
+                for brg in ([b12] if 0 <= b12 < 360 else [b12, b12 % 360.0]):
+                    zz, ee, nn, bb, ll = gd.vincdir_utm(z1, e1, n1, brg, gdist, hemi, e)
+                    tgt = cv.geo2grid(p2[0], p2[1], z1, e)
+                    d = math.hypot(ee - tgt[2], nn - tgt[3])
+                    if zz != z1 or d > 1e-3 + 2e-4:      # + the 0.1 mm rounding of both grid coordinates
+                        r1['failures'].append(dict(input=dict(inp, bearing=brg), what='direct computation does not reproduce the second point in zone 1 within 1 mm', miss_m=d, got=[zz, ee, nn]))
+                        break
             # line scale factor vs point scale factors along the straight grid line (in zone 1)
             tgt = cv.geo2grid(p2[0], p2[1], z1, e)
             ks = []
